@@ -101,6 +101,7 @@ pub fn run_input(input: &Value) -> Case {
         class: format!("ops{}{}", ops.len().min(6), if res.is_none() { "-err" } else { "" }),
         nontrivial: !ops.is_empty(),
         key: serde_json::to_string(input).unwrap(),
+        features: vec![],
     }
 }
 
